@@ -194,7 +194,7 @@ def work(job):
         try:
             scn = gen.gen(seed, profile, cfg)
             H, vs, st = run_scenario(spec, scn)
-            m, s, shape = measure(scn, H, st)
+            m, s, shape = measure(H.get('_measured_scn', scn), H, st)
             sim_s += s
             agg.update(st)
             agg.update(m)
@@ -214,7 +214,7 @@ def work(job):
                               'signature': v.sig, 'detail': v.detail,
                               'size': len(json.dumps(scn))})
             if sample_every and seed % sample_every == 0:
-                H2 = execu.execute(scn)
+                H2 = execu.execute(H.get('_measured_scn', scn))
                 det[0] += 1
                 if execu.digest(H2) != execu.digest(H):
                     det[1] += 1
